@@ -133,10 +133,48 @@ def rxOf (tbl : List (List Char × List Char × Bool)) (p v : List Char) : Bool 
   | some e => e.2.2
   | none => false
 
-def handle (j : Json) : Except String Json := do
-  let op ← getStr j "op"
-  match op with
-  | "query" => do
+def jTokFix : Tok → Json
+  | .from_ => Json.arr #[Json.str "FROM"]
+  | .where_ => Json.arr #[Json.str "WHERE"]
+  | .report => Json.arr #[Json.str "REPORT"]
+  | .star => Json.arr #[Json.str "STAR"]
+  | .dot => Json.arr #[Json.str "DOT"]
+  | .and_ => Json.arr #[Json.str "AND"]
+  | .or_ => Json.arr #[Json.str "OR"]
+  | .not_ => Json.arr #[Json.str "NOT"]
+  | .lparen => Json.arr #[Json.str "LP"]
+  | .rparen => Json.arr #[Json.str "RP"]
+  | .op o => Json.arr #[Json.str "OP", Json.str (match o with
+      | .eq1 => "=" | .eq2 => "==" | .ne => "!=" | .re => "~" | .nre => "!~"
+      | .le => "<=" | .lt => "<" | .ge => ">=" | .gt => ">")]
+  | _ => Json.null
+
+def jLTok : LTok → Json
+  | .fix t => jTokFix t
+  | .str s => Json.arr #[Json.str "STR", cps s]
+  | .ymd s => Json.arr #[Json.str "YMD", cps s]
+  | .dmy s => Json.arr #[Json.str "DMY", cps s]
+  | .kwdate s => Json.arr #[Json.str "KWDATE", cps s]
+  | .int s => Json.arr #[Json.str "INT", cps s]
+  | .qid a b => Json.arr #[Json.str "QID", cps a, cps b]
+  | .id s => Json.arr #[Json.str "ID", cps s]
+
+def splitLines (s : List Char) : List (List Char) :=
+  s.foldr (fun c acc => if c = '\n' then [] :: acc else match acc with
+    | l :: ls => (c :: l) :: ls
+    | [] => [[c]]) [[]]
+
+def lexAll : List (List Char) → Except Err (List LTok)
+  | [] => .ok []
+  | l :: ls =>
+    match lexLine (l.length + 1) l with
+    | .error e => .error e
+    | .ok ts =>
+      match lexAll ls with
+      | .error e => .error e
+      | .ok more => .ok (ts ++ more)
+
+def handleQuery (j : Json) : Except String Json := do
     let toks ← (← getArr j "toks").mapM ofTok
     let fuel := 3 * toks.length + 10
     match parseSelect fuel toks with
@@ -152,6 +190,25 @@ def handle (j : Json) : Except String Json := do
         | .error e => pure (Json.mkObj [("parse", pj), ("rows", jErr (errTag e))])
         | .ok r => pure (Json.mkObj [("parse", pj),
             ("rows", Json.mkObj [("ok", jList (jList optCps) r.rows), ("ordered", Json.bool r.ordered)])])
+
+def handle (j : Json) : Except String Json := do
+  let op ← getStr j "op"
+  match op with
+  | "lex" => do
+    let text ← getCps j "text"
+    match lexAll (splitLines (text ++ ['.'])) with
+    | .error e => pure (jErr (errTag e))
+    | .ok ts => pure (jOk (jList jLTok ts))
+  | "query" => do
+    let r ← handleQuery j
+    match j.getObjVal? "text" with
+    | .error _ => pure r
+    | .ok t => do
+      let text ← ofCps t
+      let lx := match lexAll (splitLines (text ++ ['.'])) with
+        | .error e => jErr (errTag e)
+        | .ok ts => jOk (jList jLTok ts)
+      pure (r.mergeObj (Json.mkObj [("lex", lx)]))
   | _ => throw s!"bad op {op}"
 
 end Verif.C11.Driver
